@@ -26,6 +26,7 @@ type Value struct {
 	Cap   Term // slices: capacity
 	Tuple []Value
 	Type  types.Type // static Go type when known (may be nil)
+	Inner Term // slices: content array override (views of byte-array values in contract expressions)
 	ArgType types.Type // static type of the argument expression when bound to an interface-typed parameter
 }
 
